@@ -17,6 +17,7 @@ import (
 	"fmt"
 	"os"
 	"path/filepath"
+	"runtime/debug"
 	"sort"
 	"strconv"
 	"strings"
@@ -180,7 +181,21 @@ func main() {
 		must(err)
 		InstallDeterministicRand(*seed)
 		c := &Ctx{Prop: prop, Tier: *tier, Seed: *seed, rng: NewSplitMix(*seed), ops: bufio.NewWriterSize(fo, 1<<20), impl: bufio.NewWriterSize(fi, 1<<20), Stats: map[string]int{}}
-		g(c)
+		func() {
+			// a panic (in the library under test or in a generator that met an unexpected shape) must not lose the
+			// lines already produced: flush them, report, and exit 3 so the check still classifies the partial run.
+			defer func() {
+				if r := recover(); r != nil {
+					_ = c.ops.Flush()
+					_ = c.impl.Flush()
+					_ = fo.Close()
+					_ = fi.Close()
+					fmt.Fprintf(os.Stderr, "panic: %v\n\n%s", r, debug.Stack())
+					os.Exit(3)
+				}
+			}()
+			g(c)
+		}()
 		must(c.ops.Flush())
 		must(c.impl.Flush())
 		must(fo.Close())
